@@ -37,7 +37,10 @@ ALPHABET = ['a', ' ', '\n', '#', "'", '"', ')', ']', '\\', '\xe9']
 LONG_TEXT = ' '.join(['lorem', 'ipsum', 'dolor', 'sit', 'amet', 'consectetur', 'adipiscing', 'elit', 'sed', 'do',
                       'eiusmod', 'tempor', 'incididunt', 'ut', 'labore', 'et'])[:100]
 assert len(LONG_TEXT) == 100
-SPECIFIC_TEXTS = ['a\n\nb', '\n', ' a', 'a ', 'a  b', 'a\nb', LONG_TEXT]
+# very long comments (sizes the alphabet enumeration never reaches): 40 words / 280 characters, three 70-character words, seven lines
+VERY_LONG_TEXTS = [' '.join('word%02d' % i for i in range(40)), ' '.join(['x' * 70, 'y' * 70, 'z' * 70]),
+                   '\n'.join('line %d of a long note' % i for i in range(7))]
+SPECIFIC_TEXTS = ['a\n\nb', '\n', ' a', 'a ', 'a  b', 'a\nb', LONG_TEXT] + VERY_LONG_TEXTS
 TEXTS_A_QUICK = ['a', 'a\n\nb', ' \xe9)] \'"\\\n#c d ']
 TEXTS_A_THOROUGH = TEXTS_A_QUICK + ['a\nb', ' a', 'a  b ', '\na', 'a\n \nb', LONG_TEXT]
 LEAVES = [1, 'a', None]
